@@ -137,6 +137,11 @@ impl LinkCtl {
         self.with(|l| l.faults.push(fault));
     }
 
+    /// Removes all faults that have not fired yet.
+    pub fn clear_faults(&self) {
+        self.with(|l| l.faults.clear());
+    }
+
     pub fn sent(&self, dir: usize) -> u64 {
         self.with(|l| l.dirs[dir].sent)
     }
